@@ -157,7 +157,89 @@ def reference(fs_path, filter_xml, tzid):
     return {name for (name, f, etag) in st._iter_with_filter_naive(flt)}
 
 
+def run_concurrent(args):
+    """two clients repeat two different filters at the same time against the real CLI server (no writes): every answer
+    must be the naive answer for its own filter, whatever the other request did to the index in the meantime"""
+    import threading
+    import time
+    from vf import fe as FE
+    res = common.Result()
+    rng = random.Random(args["seed"])
+    base = common.mkscratch("c10c")
+    if args.get("fe", "aio") == "aio":
+        w = W.World(base, fe_kind="aio", prefix="/", seed=args["seed"], extra_args=["--index-threshold", str(args.get("threshold", 1))])
+    else:
+        # the WSGI application inside a container that runs several requests at once in one process (threads)
+        w = W.World(base, fe_kind="wsgihost", prefix="/", seed=args["seed"], server_env={"VF_THREADS": "1"})
+    w.res = res
+    try:
+        w.start()
+        colpath = "/user/calendars/qc/"
+        w.mkcol(colpath, "calendar")
+        fsp = w.fs_path(colpath)
+        for name, label, body in c11.gen_objects(rng, 40, plain=True):
+            w.call("put", "PUT", w.url(colpath, name), [("Content-Type", "text/calendar")], body, record=False)
+        pool = [f for f in filter_pool(rng, 60, None) if "VFREEBUSY" not in f[2] and "/tz" not in f[2] and "param-" not in f[2] and "top-level" not in f[2] and "time-range" not in f[2]]
+        # filters with answers that differ from each other and are not empty
+        fams = []
+        for flt, tzid, shape in pool:
+            fx = O.render(flt)
+            try:
+                ref = reference(fsp, fx, tzid)
+            except Exception:
+                continue
+            if ref and all(ref != f[3] and shape != f[2] for f in fams):
+                fams.append((fx, tzid, shape, ref))
+            if len(fams) >= 4:
+                break
+        if len(fams) < 2:
+            res.inconclusive.append("could not find two filters with distinct non-empty answers")
+            return res
+        stop = threading.Event()
+        bad = []
+        counts = {"q": 0}
+
+        def client(i):
+            r = random.Random(args["seed"] + i)
+            while not stop.is_set():
+                fx, tzid, shape, ref = fams[(i + (0 if r.random() < 0.8 else 1)) % len(fams)]
+                resp = FE.raw_http(w.fe.addr, "REPORT", w.url(colpath), [("Depth", "1"), X.XML_CT], X.calendar_query(fx, data=False, extra=c11.tz_xml(tzid)), timeout=30,
+                                   half_close=(args.get("fe", "aio") != "aio"))
+                if resp.status != 207:
+                    bad.append((shape, "status %s" % resp.status, None))
+                    continue
+                try:
+                    rs, _ = X.parse_multistatus(resp.body)
+                except X.MalformedXML:
+                    bad.append((shape, "ill-formed", None))
+                    continue
+                got = {w.rel_name(x.href or "", colpath) for x in rs} - {None, ""}
+                counts["q"] += 1
+                if got != ref:
+                    bad.append((shape, "differs", sorted(got ^ ref)[:5]))
+        ts = [threading.Thread(target=client, args=(i,)) for i in range(3)]
+        for t in ts:
+            t.start()
+        time.sleep(args["seconds"])
+        stop.set()
+        for t in ts:
+            t.join()
+        res.evaluations += counts["q"]
+        res.count("concurrent_queries_compared", counts["q"])
+        res.seen("concurrent", len(fams), counts["q"] // 100)
+        for shape, what, names in bad[:20]:
+            res.violation(f"index-path/concurrent-queries/{what.split(' ')[0]}", f"filter [{shape}] repeated while other clients repeated other filters: answer {what} {names or ''} (the same filter alone gives the naive answer)", {"config": dict(args)})
+    except Exception:
+        res.inconclusive.append("harness exception: " + traceback.format_exc()[-1500:])
+    finally:
+        w.stop()
+        common.rmtree(base)
+    return res
+
+
 def run_shard(args):
+    if args.get("mode") == "concurrent":
+        return run_concurrent(args)
     res = common.Result()
     rng = random.Random(args["seed"])
     base = common.mkscratch("c10")
@@ -315,6 +397,8 @@ def check(tier, seed, t0):
         fe = "wsgi" if i % 4 != 3 else "aio"
         shards.append({"fe": fe, "seed": seed * 100 + i, "threshold": thresholds[i % 4] if fe == "wsgi" else rng_choice(i), "sequences": 2 if not th else 12, "queries": 90 if not th else 200,
                        "unparseable": (i % 3 == 0), "paranoid": (th and i % 5 == 0)})
+    for i in range(2 if not th else 6):
+        shards.append({"mode": "concurrent", "fe": ["wsgi-threads", "aio"][i % 2], "seed": seed * 100 + 60 + i, "threshold": [1, 3][i % 2], "seconds": 5 if not th else 25})
     results, failures = common.run_shards("vf.props.c10", shards, timeout_s=300 if not th else 3000)
     merged = common.merge(results)
     c = merged["counters"]
@@ -322,7 +406,8 @@ def check(tier, seed, t0):
     past = max(1, c.get("queries_past_threshold", 0))
     guards = [("queries compared with the cold naive evaluation", c.get("comparisons", 0), 1500 * k), ("queries answered from the index (recording wrapper)", c.get("queries_answered_from_index", 0), 500 * k),
               ("writes between queries", c.get("writes_between_queries", 0), 60 * k), ("overwrites that change indexed values", c.get("overwrites_changing_indexed_values", 0), 30 * k),
-              ("index resets", c.get("index_resets", 0), 10), ("members deleted and put back byte-identically", c.get("deleted_members_put_back_identically", 0), 5 * k)]
+              ("index resets", c.get("index_resets", 0), 10), ("members deleted and put back byte-identically", c.get("deleted_members_put_back_identically", 0), 5 * k),
+              ("answers of concurrent clients repeating different filters", c.get("concurrent_queries_compared", 0), 200 * (1 if not th else 6))]
     return common.finish(PROP, tier, seed, "exploration", merged, failures, RULE, t0, guards=guards,
                          assumptions=["the naive evaluation of the same code on a fresh store object is the reference (RFC conformance is C11's question)", "queries in aio shards cannot be attributed to a path (no wrapper in the server process); they use thresholds 0/1"])
 
